@@ -110,6 +110,7 @@ def check_c19(run: Run, prog: Program) -> None:
     n5 = dunder.rule_dispatch_flow(run, prog)
     n6 = dunder.rule_V1(run, prog)
     dunder.rule_V4(run, prog)
+    dunder.rule_V1b(run, prog)
     run.floor("super() call sites", n1, 30)
     run.floor("operator presence obligations", n3, 50)
     run.floor("dispatch table entries", n4, 20)
@@ -342,13 +343,19 @@ def check_c08(run: Run, prog: Program) -> None:
     run.title = "Transformation constructors realise their Euclidean / projective definition"
     run.clause = (
         "decides ONE clause: wherever a map is conjugated by a translation (reflection about a mirror that does not pass through the "
-        "origin, and the two other users of the idiom), the outer factors are a translation and its inverse. Everything numeric "
-        "(affine embedding, Rodrigues formula, frames, conic map) is NOT decided; this single clause is what static analysis offers here."
+        "origin, and the two other users of the idiom), the outer factors are a translation and its inverse; plus a necessary condition "
+        "of the affine embedding: the dtype of every matrix assembled by item assignment depends on all operands stored into it (no silent "
+        "truncation of a fractional offset next to an integer matrix). Everything numeric (Rodrigues formula, frames, conic map) is NOT decided."
     )
     prog.func("reflection")
     prog.func("translation")
     n = variance.rule_conjugation(run, prog)
     run.stats["conjugation_chains"] = n
+    from geolint import kinds
+
+    # affine embedding: the matrix assembled by affine_transform (and every other buffer assembled by item assignment) can hold all its operands
+    run.stats["assembled_buffers"] = kinds.rule_K7(run, prog)
+    prog.func("affine_transform")
     refl = prog.func("reflection")
     in_refl = [o for o in run.obligations if o.rule == "E8" and o.construct == refl.short]
     if not in_refl:
